@@ -63,6 +63,51 @@ func buildRunModel(r *an.Run) *runModel {
 		}
 	}
 	if m.opts == nil {
+		// the options may reach Run through a private helper that parses and validates the arguments: the
+		// *options result of a call in Run whose every non-nil return is the options newArgParser made
+		nap := r.P.Func(mainP, "newArgParser")
+		for _, c := range an.Calls(f) {
+			call, ok := c.(*ssa.Call)
+			h := an.StaticCallee(c)
+			if !ok || h == nil || !an.InModule(h) || h.Blocks == nil || h == nap {
+				continue
+			}
+			res := h.Signature.Results()
+			for i := 0; i < res.Len(); i++ {
+				if !strings.HasSuffix(an.ShortType(res.At(i).Type()), "*main.options") && an.ShortType(res.At(i).Type()) != "*options" {
+					continue
+				}
+				fromParser, n := true, 0
+				for _, ret := range an.Returns(h) {
+					if i >= len(ret.Results) {
+						continue
+					}
+					for _, l := range phiLeaves(ret.Results[i]) {
+						if an.IsNilConst(l) {
+							continue
+						}
+						n++
+						ex, ok := l.(*ssa.Extract)
+						if !ok || ex.Index != 1 {
+							fromParser = false
+							continue
+						}
+						if pc, ok := ex.Tuple.(*ssa.Call); !ok || an.StaticCallee(pc) != nap {
+							fromParser = false
+						}
+					}
+				}
+				if fromParser && n > 0 {
+					if res.Len() == 1 {
+						m.opts = call
+					} else if ex := an.ExtractOf(call, i); len(ex) > 0 {
+						m.opts = ex[0]
+					}
+				}
+			}
+		}
+	}
+	if m.opts == nil {
 		return bad("the options value (second result of newArgParser)")
 	}
 	// the read: in Run itself, or in a private helper Run calls from its per-file loop
